@@ -190,8 +190,7 @@ def build_template(case):
     # only some columns are present on the template: ASE's extend zero-fills the others
     if any(r[7] for r in rows):
         t.set_tags([r[7] for r in rows])
-    if (rows and (sum(r[6] for r in rows) + 7 * len(case["rows"])) % 17 == 0
-            and not any(e.get("swap") for e in case.get("table", []))):
+    if rows and case.get("template_extra") and not any(e.get("swap") for e in case.get("table", [])):
         # the species carries a per-atom array the system does not have (`ase.build.molecule("O2")` comes with
         # initial_magmoms): ASE's extend creates it on the system, zero-filled — see the recorded finding for what a
         # rejected or failed insertion leaves behind
